@@ -28,6 +28,8 @@ BATCH = 100
 MARK = re.compile(r"\b(s\d+_(?:\d+|pd|pv|inc)|cm_\d+|ct_\d+_[tf])\b")
 DIAG = re.compile(r"^(?:[^\s:]+):(\d+):(\d+): (error|warning): (.*)$", re.M)
 GXX = ["g++", "-E", "-P", "-x", "c++", "-std=c++2b"]
+# no stack symbolisation: only how a run ended matters here, and symbolising an abort costs ~10x the run itself
+FASTENV = {"ASAN_OPTIONS": core.SAN_ENV["ASAN_OPTIONS"] + ":symbolize=0", "UBSAN_OPTIONS": "print_stacktrace=0"}
 
 
 def prepare(chk):
@@ -45,18 +47,19 @@ def _built():
 class Pair:
     """result of running both preprocessors on one file"""
 
-    def __init__(self, d, name, text, incdirs=()):
+    def __init__(self, d, name, text, incdirs=(), ref=True):
         self.path = os.path.join(d, name)
         open(self.path, "w").write(text)
         b = _built()
-        self.pf = tools.parse_file(b, [self.path], opts=["-E"], defs=(), cwd=d, timeout=30,
+        self.pf = tools.parse_file(b, [self.path], opts=["-E"], defs=(), cwd=d, timeout=30, env=FASTENV,
                                    incs=["-S" + i for i in incdirs])
         if self.pf.timed_out:
-            self.pf = tools.parse_file(b, [self.path], opts=["-E"], defs=(), cwd=d, timeout=60,
+            self.pf = tools.parse_file(b, [self.path], opts=["-E"], defs=(), cwd=d, timeout=60, env=FASTENV,
                                        incs=["-S" + i for i in incdirs])
-        self.ref = core.run(GXX + ["-I" + i for i in incdirs] + [self.path], timeout=60, cwd=d)
         self.got = MARK.findall(self.pf.out)
-        self.exp = MARK.findall(self.ref.out)
+        if ref:
+            self.ref = core.run(GXX + ["-I" + i for i in incdirs] + [self.path], timeout=60, cwd=d)
+            self.exp = MARK.findall(self.ref.out)
         self.diags = [(int(m.group(1)), m.group(3), m.group(4)) for m in DIAG.finditer(self.pf.err)]
 
     def pf_state(self):
@@ -64,6 +67,9 @@ class Pair:
             return "timeout"
         if self.pf.died():
             return "died:" + self.pf.how()
+        if "Finished parsing." not in self.pf.err and "Error in preprocessing." not in self.pf.err:
+            m = re.search(r"runtime error: ([a-z -]+)", self.pf.err)
+            return "died:ubsan-" + (m.group(1).strip().replace(" ", "-") if m else "exit-%s" % self.pf.rc)
         return None
 
 
@@ -381,148 +387,279 @@ def canonical_line(rec):
     return "#if " + E.render(rec["node"], 2, tight=False)
 
 
-def run_sections(d, incs, secs, name):
-    """secs: list of (k, lines, expected bool) -> {k: 'ok'|'wrong'|'inconclusive'} , process state"""
-    lines = []
-    for k, ls, exp in secs:
-        lines += ls
-    pr = Pair(d, name, "\n".join(lines) + "\n", incs)
-    st = pr.pf_state()
+def plain(v):
+    """plain decimal spelling of a value (parenthesised unary minus for negatives)."""
+    if v >= 0:
+        return ["lit", str(v), v, "i"]
+    if v == E.INT_MIN:
+        return ["par", ["bin", "-", ["un", "-", ["lit", str(E.INT_MAX), E.INT_MAX, "i"]], ["lit", "1", 1, "i"]]]
+    return ["par", ["un", "-", ["lit", str(-v), -v, "i"]]]
+
+
+def run_sections(d, incs, secs, name, res=None):
+    """secs: list of (k, lines, expected bool) -> {k: 'ok'|'wrong'|'died:<how>'|'inconclusive'}.
+    Sections are independent (each resets the macro state).  When the process does not survive the file, the first
+    section that kills it is found by bisection on the prefix, recorded, removed, and the rest is run again."""
     out = {}
-    g = {m for m in pr.got}
-    e = {m for m in pr.exp}
-    for k, ls, exp in secs:
-        want = "ct_%d_%s" % (k, "t" if exp else "f")
-        other = "ct_%d_%s" % (k, "f" if exp else "t")
-        if want not in e or other in e:
-            out[k] = "inconclusive"
-        elif st or want not in g or other in g:
-            out[k] = "wrong"
-        else:
-            out[k] = "ok"
-    return out, st
+    todo = list(secs)
+    n = 0
+    while todo:
+        n += 1
+        lines = []
+        for k, ls, exp in todo:
+            lines += ls
+        pr = Pair(d, "%s_%d.h" % (name, n), "\n".join(lines) + "\n", incs)
+        st = pr.pf_state()
+        if st is None:
+            g, e = set(pr.got), set(pr.exp)
+            for k, ls, exp in todo:
+                want = "ct_%d_%s" % (k, "t" if exp else "f")
+                other = "ct_%d_%s" % (k, "f" if exp else "t")
+                if want not in e or other in e:
+                    out[k] = "inconclusive"
+                elif want not in g or other in g:
+                    out[k] = "wrong"
+                else:
+                    out[k] = "ok"
+            break
+        lo, hi = 0, len(todo)          # prefix of length lo survives, of length hi does not
+        while hi - lo > 1:
+            mid = (lo + hi) // 2
+            lines = []
+            for k, ls, exp in todo[:mid]:
+                lines += ls
+            n += 1
+            p2 = Pair(d, "%s_%d.h" % (name, n), "\n".join(lines) + "\n", incs, ref=False)
+            if p2.pf_state() is None:
+                lo = mid
+            else:
+                hi, st = mid, p2.pf_state()
+        out[todo[hi - 1][0]] = st
+        todo = todo[:hi - 1] + todo[hi:]
+    return out
+
+
+def incontext_sig(lf):
+    """coarse class of a literal that is read correctly on its own but breaks the expression around it"""
+    f = E.lit_feats(lf)
+    if "sep" in f:
+        return "sep"
+    return ",".join([f[0]] + (["suffix"] if any(x.startswith("suffix=") for x in f) else []))
+
+
+def fold(sig):
+    return re.sub(r"suffix=[ul]+", "suffix", sig)
 
 
 def explain_rand(ctx, d, incs, res, f, pr, st, in_skipped, other_err):
     text = "\n".join(f.lines)
     res.count("failing_trees")
-    if st:
-        key = "%s:rand" % st.replace("died:", "died-")
-        res.features.add("failure:" + key)
-        res.violation(key, witness=text[:3000], detail=pr.pf.err[-600:])
-        return
-    # 1. every evaluated condition on its own, under the state it saw, exactly as spelled
+    # A. every evaluated condition on its own, under the macro state it saw, exactly as spelled
     ev = [c for c in f.conds if c["evaluated"]]
-    secs = [(k, section(c, k), c["value"]) for k, c in enumerate(ev)]
-    out, st2 = run_sections(d, incs, secs, "conds.h")
-    if st2:
-        out = {}
-        for k, c in enumerate(ev):
-            o, s = run_sections(d, incs, [(k, section(c, k), c["value"])], "cond1.h")
-            out.update(o)
-    wrong = [k for k in sorted(out) if out[k] == "wrong"]
+    out = run_sections(d, incs, [(k, section(c, k), c["value"]) for k, c in enumerate(ev)], "A")
+    bad = [k for k in sorted(out) if out[k] not in ("ok", "inconclusive")]
     reported = set()
-    for k in wrong:
-        c = ev[k]
-        key, wit = explain_cond(d, incs, c, k)
+
+    def rep(key, **kw):
         if key not in reported:
             reported.add(key)
             res.features.add("failure:" + key)
-            res.violation(key, witness=wit, directive=c["text"], expected=c["value"])
-    if wrong:
+            res.violation(key, **kw)
+
+    if bad:
+        def kids(n, k):
+            if n[0] == "ref" and n[1] == "macro" and n[2] in ev[k].get("bodies", {}):
+                return [ev[k]["bodies"][n[2]]]      # look inside the macro's replacement list
+            return E.children(n)
+
+        def walk(n, k, acc):
+            for ch in kids(n, k):
+                walk(ch, k, acc)
+            acc.append(n)
+            return acc
+
+        def probe(triples, name):
+            """triples: (cond index, node) -> {(k, text): outcome}, each node compared with its value"""
+            uniq, seen = [], set()
+            for k, n in triples:
+                t = (k, E.render(n, 2))
+                if t not in seen and E.try_eval(n) is not None:
+                    seen.add(t)
+                    uniq.append((k, n))
+            o = run_sections(d, incs, [(j, section(ev[k], j, node=n, value=plain(E.evaluate(n)[0])), True)
+                                       for j, (k, n) in enumerate(uniq)], name)
+            return {(k, E.render(n, 2)): o[j] for j, (k, n) in enumerate(uniq)}
+
+        isbad = lambda o: o not in ("ok", "inconclusive", None)
+        minimal = []         # (cond index, node, outcome)
+        # B. the leaves of the failing #if conditions (most failures are a mis-read literal; leaves do not take
+        #    the process down, operators fed with a wrong operand may)
+        ifs = [k for k in bad if ev[k]["kind"] == "if"]
+        oc = probe([(k, n) for k in ifs for n in walk(ev[k]["node"], k, []) if not kids(n, k)], "B")
+        rest = []
+        for k in bad:
+            wl = [n for n in walk(ev[k]["node"], k, []) if not kids(n, k) and isbad(oc.get((k, E.render(n, 2))))] \
+                if k in ifs else []
+            if wl:
+                minimal.append((k, wl[0], oc[(k, E.render(wl[0], 2))]))
+            else:
+                rest.append(k)
+        # C. the others in canonical spelling: is it the way the directive is written?
+        outC = run_sections(d, incs, [(k, section(ev[k], k, line=canonical_line(ev[k])), ev[k]["value"])
+                                      for k in rest], "C") if rest else {}
+        still = []
+        for k in rest:
+            c = ev[k]
+            if outC.get(k) == "ok":
+                rep("%s:spelling=%s:dir=%s" % (cat(out[k]), spelling_feats(c), c["word"]),
+                    witness="\n".join(section(c, k)), directive=c["text"], expected=c["value"])
+            elif c["kind"] == "ifdef":
+                rep("%s:dir=%s:defined=%s" % (cat(outC[k]), c["word"].replace("el", "", 1) if
+                                              c["word"].startswith("el") else c["word"], c["name"] in c["state"]),
+                    witness="\n".join(section(c, k, line=canonical_line(c))), directive=c["text"],
+                    expected=c["value"])
+            else:
+                still.append(k)
+        # D. their inner nodes, each compared with its value
+        if still:
+            oc.update(probe([(k, n) for k in still for n in walk(ev[k]["node"], k, []) if kids(n, k)], "D"))
+        for k in still:
+            cur = ev[k]["node"]
+            if not isbad(oc.get((k, E.render(cur, 2)))):
+                rep("%s:cond=%s:whole" % (cat(outC[k]), fold(E.root_sig(cur))),
+                    witness="\n".join(section(ev[k], k, line=canonical_line(ev[k]))), directive=ev[k]["text"],
+                    expected=ev[k]["value"])
+                continue
+            while True:
+                b2 = [ch for ch in kids(cur, k) if isbad(oc.get((k, E.render(ch, 2))))]
+                if not b2:
+                    break
+                same = [ch for ch in b2 if oc[(k, E.render(ch, 2))] == oc[(k, E.render(cur, 2))]]
+                cur = (same or b2)[0]
+            minimal.append((k, cur, oc[(k, E.render(cur, 2))]))
+        # E. simplest failing spelling of a minimal literal; for a minimal operator node: does it still fail when all
+        #    its literals are spelled as plain decimals?  if not, which literal is it that breaks its context?
+        extra = []           # (id, index into minimal, tag, node)
+        for i, (k, n, o) in enumerate(minimal):
+            if n[0] == "lit":
+                for red in reversed(E.literal_reductions(n)):
+                    extra.append((len(extra), i, "red", red))
+            else:
+                paths = [p for p, lf in leaves(n) if lf[0] == "lit" and plain(lf[2]) != lf]
+                if paths:
+                    allp = n
+                    for pth in paths:
+                        allp = replace_at(allp, list(pth), plain(node_at(n, pth)[2]))
+                    extra.append((len(extra), i, "allplain", allp))
+                    for pth in paths:
+                        extra.append((len(extra), i, ("one", pth), replace_at(n, list(pth), plain(node_at(n, pth)[2]))))
+        extra = [x for x in extra if E.try_eval(x[3]) is not None]
+        outD = run_sections(d, incs, [(j, section(ev[minimal[i][0]], j, node=r, value=plain(E.evaluate(r)[0])), True)
+                                      for j, i, tag, r in extra], "E") if extra else {}
+        failing = lambda j: outD.get(j) not in ("ok", "inconclusive", None)
+        for i, (k, n, o) in enumerate(minimal):
+            sig = None
+            if n[0] == "lit":
+                for j, ii, tag, r in extra:
+                    if ii == i and failing(j):
+                        n, o = r, outD[j]
+                        break
+            else:
+                mine = [(j, tag, r) for j, ii, tag, r in extra if ii == i]
+                ap = [j for j, tag, r in mine if tag == "allplain"]
+                if ap and not failing(ap[0]):
+                    # fine with plain literals: a literal that is fine on its own breaks its context
+                    ess = [node_at(minimal[i][1], tag[1]) for j, tag, r in mine if tag != "allplain" and not failing(j)]
+                    lf = ess[0] if ess else None
+                    sig = "literal-in-context=" + (incontext_sig(lf) if lf else "several")
+            if sig is None and n[0] in ("un", "bin", "cond", "par"):
+                ks = sorted({"ref-" + ch[1] for ch in E.children(n) if ch[0] == "ref"})
+                sig = fold(E.root_sig(n)) + (":operand=" + "+".join(ks) if ks else "")
+            rep("%s:cond=%s" % (cat(o), sig or fold(E.root_sig(n))),
+                witness="\n".join(section(ev[k], k, node=n, value=plain(E.evaluate(n)[0]))),
+                directive=ev[k]["text"], expected=ev[k]["value"])
+        if reported:
+            return
+    # the conditions are right on their own: structure / skipped-group effect / process state
+    if st:
+        rep("%s:rand:conditions-fine-alone" % cat(st), witness=text[:3000], detail=pr.pf.err[-600:])
         return
-    # 2. the conditions are right on their own: structure / skipped-group effect
     if in_skipped:
         ln, sev, msg = in_skipped[0]
-        what = re.sub(r"[^a-z]+", "-", f.lines[ln - 1].strip().split()[0].lower()).strip("-") if \
-            f.lines[ln - 1].strip() else "blank"
-        key = "diagnostic-from-skipped-group:%s:%s" % (sev, what)
-        res.features.add("failure:" + key)
-        res.violation(key, witness=text[:3000], line=ln, message=msg)
+        w = f.lines[ln - 1].strip()
+        what = re.sub(r"[^a-z]+", "-", (w.split() or ["blank"])[0].lower()).strip("-") or "text"
+        rep("diagnostic-from-skipped-group:%s:%s" % (sev, what), witness=text[:3000], line=ln, message=msg)
         return
     if pr.got != f.truth:
         i = 0
         while i < min(len(pr.got), len(f.truth)) and pr.got[i] == f.truth[i]:
             i += 1
         extra = i < len(pr.got) and pr.got[i] not in f.truth
-        key = "wrong-group:rand:structure:" + ("extra-marker" if extra else "missing-marker")
-        # what surrounds the first differing marker?
         nm = pr.got[i] if extra else f.truth[i]
         ln = f.marker_line.get(nm, 1)
         prev = f.lines[ln - 2].strip() if ln >= 2 else ""
         m = re.match(r"#\s*(\w+)", prev)
-        key += ":after=" + (m.group(1) if m else "text")
-        res.features.add("failure:" + key)
-        res.violation(key, witness=text[:3000], first_difference=nm, got=pr.got[:40], expected=f.truth[:40])
+        rep("wrong-group:rand:structure:%s:after=%s" % ("extra-marker" if extra else "missing-marker",
+                                                        m.group(1) if m else "text"),
+            witness=text[:3000], first_difference=nm, got=pr.got[:40], expected=f.truth[:40])
         return
-    key = "exit-status:rand" if pr.pf.rc != 0 else "diagnostic:rand:error"
-    res.features.add("failure:" + key)
-    res.violation(key, witness=text[:3000], detail=pr.pf.err[-600:], rc=pr.pf.rc)
+    rep("exit-status:rand" if pr.pf.rc != 0 else "diagnostic:rand:error", witness=text[:3000],
+        detail=pr.pf.err[-600:], rc=pr.pf.rc)
 
 
-def explain_cond(d, incs, c, k):
-    """c fails on its own.  Spelling?  Otherwise the smallest sub-expression with the wrong value."""
-    canon = canonical_line(c)
-    o, st = run_sections(d, incs, [(k, section(c, k, line=canon), c["value"])], "canon.h")
-    if o.get(k) == "ok":
-        feats = []
-        t = c["text"]
-        if re.match(r"^\s+#", t):
-            feats.append("space-before-hash")
-        if re.match(r"^\s*#\s+\w", t):
-            feats.append("space-after-hash")
-        if "//" in t:
-            feats.append("line-comment")
-        if "/*" in t:
-            feats.append("block-comment")
-        if re.search(r"\w\t| \t|\t ", t) or re.search(r"#\w+\t", t):
-            feats.append("tab")
-        if re.search(r"\s$", t):
-            feats.append("trailing-space")
-        if c["kind"] == "if" and c.get("tight"):
-            feats.append("tight-expression")
-        return "wrong-group:spelling=%s:dir=%s" % ("+".join(feats) or "other", c["word"]), "\n".join(section(c, k))
-    if c["kind"] == "ifdef":
-        return "wrong-group:dir=%s:defined=%s" % (c["word"], c["name"] in c["state"]), \
-            "\n".join(section(c, k, line=canon))
-    # sub-expressions, each compared with its value
-    nodes, seen = [], set()
-    for n in E.subexprs(c["node"]):
-        t = E.render(n, 2)
-        if t not in seen and E.try_eval(n) is not None:
-            seen.add(t)
-            nodes.append(n)
-    gv = E.ExprGen(random.Random(0), mode="pp", suffixes=False, lit_forms=["dec"])
+def leaves(n, path=()):
+    if n[0] in ("lit", "ref"):
+        yield path, n
+    slots = {"un": [2], "cast": [3], "par": [1], "bin": [2, 3], "cond": [1, 2, 3]}.get(n[0], [])
+    for sl in slots:
+        for x in leaves(n[sl], path + (sl,)):
+            yield x
 
-    def probe(ns, name):
-        secs = []
-        for j, n in enumerate(ns):
-            v = E.evaluate(n)[0]
-            secs.append((j, section(c, j, node=n, value=gv.value_leaf(v)), True))
-        o, st = run_sections(d, incs, secs, name)
-        if st and len(ns) > 1:
-            o = {}
-            for j, n in enumerate(ns):
-                o1, _ = run_sections(d, incs, [secs[j]], "p1.h")
-                o[j] = o1[j]
-        return {E.render(n, 2): o[j] for j, n in enumerate(ns)}
 
-    oc = probe(nodes, "probe.h")
-    cur = c["node"]
-    if oc.get(E.render(cur, 2)) != "wrong":
-        # the value is right but the truth decision is wrong (or only wrong as a whole): report the whole condition
-        return "wrong-group:cond=%s:whole" % E.root_sig(cur), "\n".join(section(c, k, line=canon))
-    while True:
-        bad = [ch for ch in E.children(cur) if oc.get(E.render(ch, 2)) == "wrong"]
-        if not bad:
-            break
-        cur = bad[0]
-    if cur[0] == "lit":
-        for red in E.literal_reductions(cur):
-            if probe([red], "lit.h").get(E.render(red, 2)) == "wrong":
-                cur = red
-    v = E.evaluate(cur)[0]
-    return "wrong-group:cond=%s" % E.root_sig(cur), "\n".join(section(c, k, node=cur, value=gv.value_leaf(v)))
+def node_at(n, path):
+    for sl in path:
+        n = n[sl]
+    return n
+
+
+def replace_at(n, path, new):
+    if not path:
+        return new
+    c = list(n)
+    c[path[0]] = replace_at(n[path[0]], path[1:], new)
+    return c
+
+
+def cat(outcome):
+    """failure category of a section outcome / process state"""
+    if outcome == "wrong":
+        return "wrong-group"
+    o = outcome.replace("died:", "")
+    if "ABRT" in o or o in ("signal:6", "assert"):
+        return "abort"
+    if o.startswith("ubsan"):
+        return "ubsan-" + o[6:] if len(o) > 6 else "ubsan"
+    return re.sub(r"[^a-zA-Z0-9-]+", "-", o)
+
+
+def spelling_feats(c):
+    feats = []
+    t = c["text"]
+    if re.match(r"^\s+#", t):
+        feats.append("space-before-hash")
+    if re.match(r"^\s*#\s+\w", t):
+        feats.append("space-after-hash")
+    if "//" in t:
+        feats.append("line-comment")
+    if "/*" in t:
+        feats.append("block-comment")
+    if "\t" in t.strip():
+        feats.append("tab")
+    if re.search(r"\s$", t):
+        feats.append("trailing-space")
+    if c["kind"] == "if" and c.get("tight"):
+        feats.append("tight-expression")
+    return "+".join(feats) or "other"
 
 
 # ---------------------------------------------------------------------------
@@ -530,6 +667,14 @@ def explain_cond(d, incs, c, k):
 # ---------------------------------------------------------------------------
 
 def run_case(ctx, case):
+    import time
+    t0 = time.time()
+    res = _run_case(ctx, case)
+    res.count("cpu_ms_" + case["kind"], int((time.time() - t0) * 1000))
+    return res
+
+
+def _run_case(ctx, case):
     res = core.CaseResult()
     kind = case["kind"]
     if kind == "exh":
